@@ -437,6 +437,12 @@ class ChunkedFile(object):
         self.pos += len(r)
         return r
 
+    def readinto(self, b):
+        # what an unbuffered socket file offers besides read(): fills a prefix of b, returns the count (short reads too)
+        r = self.read(len(b))
+        b[:len(r)] = r
+        return len(r)
+
     def fileno(self):
         raise io.UnsupportedOperation
 
